@@ -41,6 +41,7 @@ CRATE = os.path.join(HERE, "crate")
 SHIM = os.path.join(HERE, "shim", "frost_core_verif_shim.rs")
 KANI_FLAGS = ["-Z", "stubbing"]
 TIER_TIMEOUT = {"quick": 120, "thorough": 1800}
+TIMEOUT_OVERRIDE = None
 META_RE = re.compile(r"^\s*//\s*@harness\s+(.*)$")
 
 _scratch_to_delete = []
@@ -286,7 +287,8 @@ def harness_cmd(h, timeout, extra=()):
 
 
 def run_harness(h, root, tier, mem_gb, playback, log_dir):
-    timeout = h["timeout"] or TIER_TIMEOUT["thorough" if (tier == "thorough" or h["tier"] == "thorough") else "quick"]
+    timeout = (TIMEOUT_OVERRIDE or h["timeout"]
+               or TIER_TIMEOUT["thorough" if (tier == "thorough" or h["tier"] == "thorough") else "quick"])
     cmd = harness_cmd(h, timeout)
     rc, out, secs = run_cmd(cmd, root, timeout, mem_gb)
     res = {k: h[k] for k in ("name", "module", "props", "kind", "bound", "backs", "tier", "expect", "file")}
@@ -314,7 +316,7 @@ def run_harness(h, root, tier, mem_gb, playback, log_dir):
     else:
         res["status"] = "error"
         tail = ANSI.sub("", out)[-1500:]
-        oom = bool(re.search(r"bad_alloc|out of memory|Out of memory|memory exhausted|SIGKILL|signal: 9", out))
+        oom = bool(re.search(r"bad_alloc|out of memory|Out of memory|run out of memory|memory exhausted|SIGKILL|signal: 9", out))
         res["detail"] = ("out of memory? " if oom else "") + f"rc={rc}; output tail: {tail}"
     if log_dir:
         os.makedirs(log_dir, exist_ok=True)
@@ -344,9 +346,12 @@ def main():
     ap.add_argument("--no-playback", action="store_true", help="do not re-run failed expect=pass harnesses for a counterexample")
     ap.add_argument("--scratch", help="(development) use/keep this scratch directory instead of a fresh temporary one")
     ap.add_argument("--log-dir", help="keep raw Kani output per harness in this directory")
+    ap.add_argument("--timeout", type=int, default=0, help="(development) override the per-harness wall-clock cap, seconds")
     ap.add_argument("--build-only", action="store_true", help="make the scratch copy and pre-build, run nothing (for `check --setup`)")
     args = ap.parse_args()
 
+    global TIMEOUT_OVERRIDE
+    TIMEOUT_OVERRIDE = args.timeout or None
     props = [p.strip() for p in args.props.split(",") if p.strip()]
     all_h = discover()
     sel = select(all_h, props, args.tier, args.harness)
